@@ -217,6 +217,19 @@ func c17Hexval(c byte) (int, bool) {
 func HarnessC17Escapejs() {
 	n := verifParam("n", 1)
 	x := symStringLen(0, n)
+	if verifParam("lead4", 0) == 1 {
+		// one character outside the BMP (a four-byte sequence), optionally followed by one more byte
+		x = symStringLen(4, 5)
+		verifAssume(x[0] >= 0xf0)
+		verifAssume(x[0] <= 0xf4)
+		for i := 1; i < 4; i++ {
+			verifAssume(x[i] >= 0x80)
+			verifAssume(x[i] <= 0xbf)
+		}
+		if len(x) == 5 {
+			verifAssume(x[4] < 0x80)
+		}
+	}
 	valid := c17ValidUTF8(x)
 	verifObserve("x", x)
 	out := c17Apply("escapejs", x)
@@ -363,28 +376,54 @@ func HarnessC17Removetags() {
 	verifAssert(out == c17TrimSpace(string(want)), "removetags must remove exactly the named tags (<b>, </b>, <b/>, </b/>) and nothing else")
 }
 
-// c17JSMatch: does out[i:] decode to want[j:] under SOME reading of its \u escapes (4, 5 or 6 hex digits)?
+// c17JSMatch: does out[i:] decode to want[j:] the way JavaScript reads it: a \u escape has exactly four
+// hex digits, a character outside the BMP is written as a surrogate pair of two escapes
 func c17JSMatch(out string, i int, want []rune, j int) bool {
-	if i == len(out) {
-		return j == len(want)
+	for i < len(out) {
+		if j >= len(want) {
+			return false
+		}
+		c := out[i]
+		if c != '\\' {
+			if rune(c) != want[j] {
+				return false
+			}
+			i, j = i+1, j+1
+			continue
+		}
+		v, ok := c17Hex4(out, i)
+		if !ok {
+			return false
+		}
+		i += 6
+		if v >= 0xD800 && v < 0xDC00 { // high surrogate: the low one must follow
+			lo, ok2 := c17Hex4(out, i)
+			if !ok2 || lo < 0xDC00 || lo > 0xDFFF {
+				return false
+			}
+			i += 6
+			v = 0x10000 + (v-0xD800)<<10 + (lo - 0xDC00)
+		}
+		if rune(v) != want[j] {
+			return false
+		}
+		j++
 	}
-	if j >= len(want) {
-		return false
-	}
-	c := out[i]
-	if c != '\\' {
-		return rune(c) == want[j] && c17JSMatch(out, i+1, want, j+1)
+	return j == len(want)
+}
+
+// c17Hex4: the value of the escape \uXXXX at out[i:]
+func c17Hex4(out string, i int) (int, bool) {
+	if i+6 > len(out) || out[i] != '\\' || out[i+1] != 'u' {
+		return 0, false
 	}
 	v := 0
-	for k := 0; k < 6 && i+2+k < len(out); k++ {
+	for k := 0; k < 4; k++ {
 		d, ok := c17Hexval(out[i+2+k])
 		if !ok {
-			break
+			return 0, false
 		}
 		v = v<<4 | d
-		if k >= 3 && rune(v) == want[j] && c17JSMatch(out, i+3+k, want, j+1) {
-			return true
-		}
 	}
-	return false
+	return v, true
 }
